@@ -273,7 +273,7 @@ func c05(c *Ctx) {
 		// persisted record is the same value
 		okRec := false
 		core.Calls(m.prune, func(ci ssa.CallInstruction) {
-			if strings.HasSuffix(core.CalleeID(ci), ".PutUint64") {
+			if strings.HasSuffix(core.CalleeID(ci), ".PutUint64") || strings.HasSuffix(core.CalleeID(ci), ".AppendUint64") {
 				a := ci.Common().Args
 				if a[len(a)-1] == v {
 					okRec = true
@@ -296,7 +296,7 @@ func c05(c *Ctx) {
 	if len(adds) == 1 {
 		okRec := false
 		core.Calls(m.put, func(ci ssa.CallInstruction) {
-			if strings.HasSuffix(core.CalleeID(ci), ".PutUint64") {
+			if strings.HasSuffix(core.CalleeID(ci), ".PutUint64") || strings.HasSuffix(core.CalleeID(ci), ".AppendUint64") {
 				a := ci.Common().Args
 				if a[len(a)-1] == adds[0].Value() {
 					okRec = true
